@@ -80,6 +80,43 @@ theorem canReplace_of_with (S : Schema) (tyP : TypeId) (L : List Node) (i j : Na
         simp only [Option.some.injEq] at h
         simp [h, hm]
 
+/-- … and in general `can_replace(i, j, [n])` is then "the parent allows the marks of `n`" -/
+theorem canReplace_of_with' (S : Schema) (tyP : TypeId) (L : List Node) (i j : Nat) (n : Node) (ty : TypeId)
+    (hty : S.tyOf n = ty) (h : S.canReplaceWith tyP L i j ty [] = some true) :
+    S.canReplace tyP L i j [n] 0 1 = some ((S.nodeType tyP).allowsMarks n.marks) := by
+  unfold Schema.canReplaceWith at h
+  simp only [List.isEmpty_nil, Bool.not_true, Bool.false_and, Bool.false_eq_true, if_false] at h
+  unfold Schema.canReplace
+  split at h
+  · simp at h
+  · rename_i q hq
+    simp only []
+    have e : (([n] : List Node).take 1).drop 0 = [n] := rfl
+    rw [e]
+    split at h
+    · simp at h
+    · rename_i q1 hq1
+      have : (S.dfa tyP).run q (S.types [n]) = some q1 := by
+        simp [Schema.types, Dfa.run, hty, hq1]
+      rw [this]
+      simp only []
+      split at h
+      · simp at h
+      · rename_i q2 hq2
+        simp only [Option.some.injEq] at h
+        simp [h]
+
+theorem nodeCanReplace_of_with' (S : Schema) (node : Node) (i : Nat) (n : Node) (ty : TypeId)
+    (hty : S.tyOf n = ty) (h : S.nodeCanReplaceWith node i i ty = some true) :
+    S.nodeCanReplace node i i [n] = some ((S.nodeType (S.tyOf node)).allowsMarks n.marks) := by
+  unfold Schema.nodeCanReplaceWith at h
+  unfold Schema.nodeCanReplace
+  split at h
+  · simp at h
+  · rename_i hlen
+    rw [if_neg hlen]
+    exact canReplace_of_with' S _ _ i i n ty hty h
+
 /-- **a closed fragment put in at a child boundary of a nested node**: if the node's `can_replace(i, i, C)` approves,
     `ReplaceStep(p, p, Slice(C, 0, 0))` applies and the document stays valid -/
 theorem level_insert_applies (S : Schema) (hts : TextStableP S) (ty0 : TypeId) (a0 : Attrs) (m0 : Marks) (K : List Node)
